@@ -11,7 +11,7 @@ from pgpy.types import Fingerprint
 
 warnings.simplefilter('ignore')
 
-FUNCTIONS_ENCODED = ['pgpy.pgp.PGPKeyring.load', 'pgpy.pgp.PGPKeyring._add_key', 'pgpy.pgp.PGPKeyring._add_alias',
+FUNCTIONS_ENCODED = ['pgpy.pgp.PGPKey.parse (several keys / both halves in one blob)', 'pgpy.pgp.PGPKeyring.load (octets, armored text)', 'pgpy.pgp.PGPKeyring.load', 'pgpy.pgp.PGPKeyring._add_key', 'pgpy.pgp.PGPKeyring._add_alias',
                      'pgpy.pgp.PGPKeyring._sort_alias', 'pgpy.pgp.PGPKeyring.unload', 'pgpy.pgp.PGPKeyring._get_key',
                      'pgpy.pgp.PGPKeyring.key', 'pgpy.pgp.PGPKeyring.__contains__', 'pgpy.pgp.PGPKeyring.fingerprints',
                      'pgpy.pgp.PGPKeyring.__len__']
